@@ -31,6 +31,7 @@ import time
 import zlib
 from functools import lru_cache
 
+from bcheck import history
 from bcheck.common import Collector, args, run_sharded, call
 from bcheck import ref_c14 as R
 
@@ -50,6 +51,8 @@ TOKENS = [
     ("%2F", "D"), ("%3F", "D"), ("%23", "D"), ("%26", "D"), ("%3D", "D"), ("%40", "D"), ("%3A", "D"), ("%2B", "D"),
     ("%25", "P"), ("%2541", "N"), ("%E9", "I"), ("%00", "C"), ("%0A", "C"), ("%7F", "X"),
     ("%", "T"), ("%4", "T"), ("%zz", "Z"),
+    # '%' followed by characters that only LOOK like hex digits: non-ASCII decimal digits (full-width, Arabic-Indic) are no hex digits
+    ("%\uff11a", "Z"), ("%\u0665\u0660", "Z"),
 ]
 TOK_TEXT = [t for t, _ in TOKENS]
 TOK_CLASS = dict(TOKENS)
@@ -410,6 +413,8 @@ def main():
     col = Collector("C14", a.tier, a.seed)
     col.max_violations = 3000
     R.selftest()
+    if a.replay and history.replayed(a, col, "C14"):
+        return
     if a.replay:
         replay(col, json.load(open(a.replay)))
         col.rule = "replay"
@@ -467,6 +472,7 @@ def main():
         col.notes.append("violating inputs %s: %d" % (k, vt[k]))
     for k in sorted(obs):
         col.notes.append("observation (statement silent, not flagged) %s: %d" % (k, obs[k]))
+    history.run(col, "C14", a.tier == "quick")
     col.dump(a.out)
 
 
